@@ -213,13 +213,20 @@ def uriParamsLoop (b : Buf) (offs : Nat) (l : URIParamsLst) (flags vNo : Nat) : 
         let l2 := { l1 with types := l1.types ||| t, n := l1.n + 1 }
         let l3 := if inArr then l2 else { l2 with tmp := {} }
         if e == .moreValues then
-          if offs < next ∧ next ≤ b.size then uriParamsLoop b next l3 flags (vNo + 1)
+          -- a resumed call may report "more values" at its own start offset (it was suspended right
+          -- after a separator); the next element then starts in its initial state
+          if next ≤ b.size ∧ (offs < next ∨ (offs = next ∧ p.param.state = .fNxt ∧ l3.cur.param.state ≠ .fNxt)) then
+            uriParamsLoop b next l3 flags (vNo + 1)
           else (next, vNo + 1, .lbug, l3)
         else (next, vNo + 1, e, l3)
     else if e == .moreBytes then (next, vNo, e, l.setCur { p with param := tp })
     else (next, vNo, e, l.setCur {})
-termination_by b.size - offs
-decreasing_by omega
+termination_by 2 * (b.size - offs) + (if l.cur.param.state = .fNxt then 1 else 0)
+decreasing_by
+  rename_i h
+  rcases h with ⟨h1, h2 | ⟨h2, h3, h4⟩⟩
+  · split <;> split <;> omega
+  · subst h2; simp only [p] at h3; rw [if_pos h3, if_neg h4]; omega
 
 /-- `ParseAllURIParams(buf, offs, l, flags)`: (offset, values parsed in this call, err). -/
 def parseAllURIParams (b : Buf) (offs : Nat) (l : URIParamsLst) (flags : Nat) : Nat × Nat × Err × URIParamsLst :=
@@ -250,13 +257,18 @@ def uriHdrsLoop (b : Buf) (offs : Nat) (l : URIHdrsLst) (flags vNo : Nat) : Nat 
       let l2 := { l1 with n := l1.n + 1 }
       let l3 := if inArr then l2 else { l2 with tmp := {} }
       if e == .moreValues then
-        if offs < next ∧ next ≤ b.size then uriHdrsLoop b next l3 flags (vNo + 1)
+        if next ≤ b.size ∧ (offs < next ∨ (offs = next ∧ l.cur.state = .fNxt ∧ l3.cur.state ≠ .fNxt)) then
+          uriHdrsLoop b next l3 flags (vNo + 1)
         else (next, vNo + 1, .lbug, l3)
       else (next, vNo + 1, e, l3)
     else if e == .moreBytes then (next, vNo, e, l.setCur tp)
     else (next, vNo, e, l.setCur {})
-termination_by b.size - offs
-decreasing_by omega
+termination_by 2 * (b.size - offs) + (if l.cur.state = .fNxt then 1 else 0)
+decreasing_by
+  rename_i h
+  rcases h with ⟨h1, h2 | ⟨h2, h3, h4⟩⟩
+  · split <;> split <;> omega
+  · subst h2; rw [if_pos h3, if_neg h4]; omega
 
 /-- `ParseAllURIHdrs(buf, offs, l, flags)`. -/
 def parseAllURIHdrs (b : Buf) (offs : Nat) (l : URIHdrsLst) (flags : Nat) : Nat × Nat × Err × URIHdrsLst :=
